@@ -67,6 +67,11 @@ struct Shared {
     root: Root,
     /// The marker of the last committed overlay. `None` if the last commit was not an overlay.
     last_commit_marker: Option<OverlayMarker>,
+    /// Incremented by every commit and rollback. A changeset prepared directly on the committed
+    /// state is only valid for the generation it was prepared in: an equal root is not enough,
+    /// because a commit followed by its rollback restores the root but not necessarily the
+    /// physical layout (page buckets, elision) the changeset was computed against.
+    generation: u64,
 }
 
 /// Whether a key was read, written, or both, along with old and new values.
@@ -246,6 +251,7 @@ impl<T: HashAlgorithm> Nomt<T> {
             shared: Arc::new(Mutex::new(Shared {
                 root: Root(root),
                 last_commit_marker: None,
+                generation: 0,
             })),
             access_lock: Arc::new(RwLock::new(())),
             metrics,
@@ -335,9 +341,13 @@ impl<T: HashAlgorithm> Nomt<T> {
             None
         };
 
-        let prev_root = live_overlay
-            .parent_root()
-            .unwrap_or_else(|| self.root().into_inner());
+        let (prev_root, base_generation) = match live_overlay.parent_root() {
+            Some(root) => (root, None),
+            None => {
+                let shared = self.shared.lock();
+                (shared.root.into_inner(), Some(shared.generation))
+            }
+        };
 
         Session {
             store,
@@ -354,6 +364,7 @@ impl<T: HashAlgorithm> Nomt<T> {
             witness_mode: params.witness,
             access_guard,
             prev_root: Root(prev_root),
+            base_generation,
             _marker: std::marker::PhantomData,
         }
     }
@@ -503,6 +514,9 @@ pub struct Session<T> {
     // so this is dropped after all read transactions are taken, even when the session is dropped.
     access_guard: Option<ArcRwLockReadGuard<parking_lot::RawRwLock, ()>>,
     prev_root: Root,
+    // the generation of the committed state this session is based on, if it is not based on an
+    // overlay.
+    base_generation: Option<u64>,
     _marker: std::marker::PhantomData<T>,
 }
 
@@ -629,6 +643,7 @@ impl<T: HashAlgorithm> Session<T> {
             rollback_delta,
             parent_overlay: self.overlay,
             prev_root: self.prev_root,
+            base_generation: self.base_generation,
             take_global_guard: self.access_guard.is_some(),
         })
     }
@@ -647,6 +662,7 @@ pub struct FinishedSession {
     rollback_delta: Option<rollback::Delta>,
     parent_overlay: LiveOverlay,
     prev_root: Root,
+    base_generation: Option<u64>,
     // INTERNAL: whether to take a write guard while committing. always true except during rollback.
     take_global_guard: bool,
 }
@@ -680,13 +696,15 @@ impl FinishedSession {
             .collect();
         let values = self.value_transaction.into_iter().collect();
 
-        self.parent_overlay.finish(
-            self.prev_root.into_inner(),
-            self.merkle_output.root,
-            updated_pages,
-            values,
-            self.rollback_delta,
-        )
+        self.parent_overlay
+            .finish(
+                self.prev_root.into_inner(),
+                self.merkle_output.root,
+                updated_pages,
+                values,
+                self.rollback_delta,
+            )
+            .with_base_generation(self.base_generation)
     }
 
     /// Commit this session to disk directly.
@@ -711,7 +729,11 @@ impl FinishedSession {
 
         {
             let mut shared = nomt.shared.lock();
-            if shared.root != self.prev_root {
+            if shared.root != self.prev_root
+                || self
+                    .base_generation
+                    .map_or(false, |g| g != shared.generation)
+            {
                 anyhow::bail!(
                     "Changeset no longer valid (expected previous root {:?}, got {:?})",
                     self.prev_root,
@@ -720,6 +742,7 @@ impl FinishedSession {
             }
             shared.root = Root(self.merkle_output.root);
             shared.last_commit_marker = None;
+            shared.generation += 1;
         }
 
         if let Some(rollback_delta) = self.rollback_delta {
@@ -770,7 +793,11 @@ impl FinishedSession {
         // cannot change below: the write guard is held.
         {
             let shared = nomt.shared.lock();
-            if shared.root != self.prev_root {
+            if shared.root != self.prev_root
+                || self
+                    .base_generation
+                    .map_or(false, |g| g != shared.generation)
+            {
                 anyhow::bail!(
                     "Changeset no longer valid (expected previous root {:?}, got {:?})",
                     self.prev_root,
@@ -798,7 +825,11 @@ impl FinishedSession {
 
         {
             let mut shared = nomt.shared.lock();
-            if shared.root != self.prev_root {
+            if shared.root != self.prev_root
+                || self
+                    .base_generation
+                    .map_or(false, |g| g != shared.generation)
+            {
                 anyhow::bail!(
                     "Changeset no longer valid (expected previous root {:?}, got {:?})",
                     self.prev_root,
@@ -807,6 +838,7 @@ impl FinishedSession {
             }
             shared.root = Root(self.merkle_output.root);
             shared.last_commit_marker = None;
+            shared.generation += 1;
         }
 
         nomt.store.commit(
@@ -859,7 +891,11 @@ impl Overlay {
 
         {
             let mut shared = nomt.shared.lock();
-            if shared.root != self.prev_root() {
+            if shared.root != self.prev_root()
+                || self
+                    .base_generation()
+                    .map_or(false, |g| g != shared.generation)
+            {
                 anyhow::bail!(
                     "Changeset no longer valid (expected previous root {:?}, got {:?})",
                     self.prev_root(),
@@ -867,6 +903,7 @@ impl Overlay {
                 );
             }
             shared.root = root;
+            shared.generation += 1;
             // only an accepted overlay counts as committed for its descendants.
             shared.last_commit_marker = Some(self.mark_committed());
         }
@@ -926,7 +963,11 @@ impl Overlay {
 
         {
             let mut shared = nomt.shared.lock();
-            if shared.root != self.prev_root() {
+            if shared.root != self.prev_root()
+                || self
+                    .base_generation()
+                    .map_or(false, |g| g != shared.generation)
+            {
                 anyhow::bail!(
                     "Changeset no longer valid (expected previous root {:?}, got {:?})",
                     self.prev_root(),
@@ -934,6 +975,7 @@ impl Overlay {
                 );
             }
             shared.root = root;
+            shared.generation += 1;
             // only an accepted overlay counts as committed for its descendants.
             shared.last_commit_marker = Some(self.mark_committed());
         }
